@@ -190,8 +190,9 @@ def apply_clauses(src, clauses):
             if k >= len(toks):
                 raise LostAnchor("tail: no enclosing block")
             name = c["name"]
+            bare = name.split(":")[0]
             edits.append((p, p, f"let {name} = "))
-            edits.append((toks[k].start, toks[k].start, ";\n" + c["text"].rstrip() + f"\n{name}\n"))
+            edits.append((toks[k].start, toks[k].start, ";\n" + c["text"].rstrip() + f"\n{bare}\n"))
         elif op == "body_start":
             if body < 0:
                 raise LostAnchor("body_start on bodiless fn")
